@@ -99,6 +99,34 @@ class Census:
 
 CENSUS = Census()
 
+# vectors the driver itself built over a caller-supplied tuple: id(vector) -> (weakref, key of the tuple).
+# Only these may legitimately share storage (and be refused writes while they do).
+CALLER_BUILT = {}
+
+
+def mark_caller_built(vec, key):
+	CALLER_BUILT[id(vec)] = (weakref.ref(vec), key)
+
+
+def caller_key(vec):
+	ent = CALLER_BUILT.get(id(vec))
+	if ent is None or ent[0]() is not vec:
+		return None
+	return ent[1]
+
+
+def storage_groups():
+	"""live vectors grouped by the identity of their (non-empty) storage tuple"""
+	groups = {}
+	for o in CENSUS.live():
+		if isinstance(o, Row):
+			continue
+		st = o.__dict__.get("_underlying")
+		if st is None or len(st) == 0:
+			continue
+		groups.setdefault(id(st), []).append(o)
+	return groups
+
 # shadow index of the alias tracker: id(obj) -> (weakref, {tuple ids it was registered under}); maintained by hooks
 TRACKER_SHADOW = {}
 TRACKER_EVENTS = {"register": 0, "unregister": 0, "check_writable": 0}
@@ -254,6 +282,7 @@ class Machine:
 				h = self.add(o.value, "shared-tuple")
 				if h:
 					h.shared_with = key
+					mark_caller_built(o.value, key)
 					hs.append(h)
 		self.log("shared_tuple", values=list(tup), count=len(hs))
 		return set()
@@ -554,22 +583,30 @@ class Machine:
 			r0 = rng.randrange(n) if n else 0
 			r1 = min(n, r0 + rng.choice([1, 2]))
 			c1 = min(nc, pos + rng.choice([1, 2]))
-			block = [[make_like(rng, next((x for x in t.cols()[c]._underlying if x is not None), 1)) for _ in range(r1 - r0)] for c in range(pos, c1)]
+			if rng.random() < 0.25:
+				r0, r1, pos, c1 = 0, n, 0, nc      # the whole table
+			extra = rng.choice([0, 0, 0, 1, -1]) if (r1 - r0) > 0 else 0      # sometimes a source with the wrong number of rows
+			block = [[make_like(rng, next((x for x in t.cols()[c]._underlying if x is not None), 1)) for _ in range(max(0, r1 - r0 + extra))] for c in range(pos, c1)]
 			if rng.random() < 0.5 and block and block[0]:
 				o2 = call(lambda: Table([Vector(b) for b in block]))
 				src = o2.value if o2.ok else block
 			else:
 				src = block
-			f = lambda: t.__setitem__((slice(r0, r1), slice(pos, c1)), src)
+			key = (slice(r0, r1), slice(pos, c1))
+			if (r0, r1, pos, c1) == (0, n, 0, nc) and rng.random() < 0.5:
+				key = slice(None)
+			f = lambda: t.__setitem__(key, src)
 		elif how in ("attr-list", "attr-vector", "attr-wrong-length"):
 			acc = accessor_for(t, pos)
 			if acc is None:
 				return set()
 			m = n + (1 if how == "attr-wrong-length" else 0)
 			vals = [make_like(rng, proto) for _ in range(m)]
+			if how != "attr-vector" and rng.random() < 0.3:
+				vals = rng.choice([(x for x in list(vals)), iter(list(vals)), map(lambda x: x, list(vals))])     # unsized iterables
 			if how == "attr-vector":
 				donor = self.pick(lambda o: o.kind == "vector" and len(o.obj) == n)
-				src = donor.obj if donor else Vector(vals)
+				src = donor.obj if donor else Vector(list(vals))
 			else:
 				src = vals
 			target = getattr(t, acc, None)
@@ -721,7 +758,13 @@ class Machine:
 		sharers = self.true_sharers(v)
 		chk.judged("alias-refusal", ("refusal", h.prov.split(":")[0], bool(sharers)))
 		if sharers:
-			chk.counters["alias:justified-refusals"] += 1
+			k = caller_key(v)
+			if k is not None and all(caller_key(w) == k for w in sharers):
+				chk.counters["alias:justified-refusals"] += 1
+				return
+			chk.fail("copies, slices, operation results and table columns share storage with no other live vector and are always writable",
+				f"alias/library-result-shares-storage/{h.prov.split(':')[-1]}",
+				f"{label} on {h!r} raised AliasError because it shares its storage tuple with {len(sharers)} other live vector(s) that the caller did not build over one tuple; trace {self.tail()}", prop="C15")
 			return
 		# retry once after collection: a refusal that persists without any live sharer is spurious
 		probe = call(lambda: v.__setitem__(0, v._underlying[0]))
@@ -908,6 +951,23 @@ class Machine:
 			chk.fail("a write changes only the written object; read-only operations change nothing" , f"frame/{kind}/{self.last_op}/victim-{rel}",
 				f"{self.last_op} through {w!r} changed bystander {h!r}: {short(old, 200)} -> {short(new, 200)}; trace {self.tail()}", prop="C01")
 		chk.judged("steps", (opname, self.last_op, len(self.pool) > 3))
+		groups = storage_groups()
+		for h in self.pool:
+			if h.kind != "vector" or h.obj is None or isinstance(h.obj, Row):
+				continue
+			st = h.obj.__dict__.get("_underlying")
+			if not st:
+				continue
+			g = groups.get(id(st), ())
+			if len(g) > 1:
+				k = caller_key(h.obj)
+				if k is None or any(caller_key(w) != k for w in g):
+					others = [w for w in g if w is not h.obj]
+					chk.fail("copies, slices, operation results and table columns share storage with no other live vector",
+						f"alias/library-result-shares-storage/{h.prov.split(':')[-1]}",
+						f"{h!r} shares its storage tuple with {len(others)} other live vector(s) although it was not built by the caller over a shared tuple; trace {self.tail()}", prop="C15")
+				else:
+					chk.counters["alias:caller-shared-groups-seen"] += 1
 		for h in self.pool:
 			if h.obj is None or h.kind == "row":
 				continue
